@@ -48,17 +48,29 @@ func c07Eval(v []int) (string, string, bool) {
 	if arrival != "udp" {
 		transport = "TCP"
 	}
-	top := "SIP/2.0/" + transport + " " + viaHost + ":" + viaPort + ";branch=z9hG4bKc07"
+	var pars []string
 	switch s.Val(v, "rport") {
 	case "valueless":
-		top += ";rport"
+		pars = append(pars, "rport")
 	case "spoofed":
-		top += ";rport=1111"
+		pars = append(pars, "rport=1111")
 	}
 	if s.Val(v, "received") == "spoofed" {
-		top += ";received=10.66.6.6"
+		pars = append(pars, "received=10.66.6.6")
 	}
-	top += ";x=keep"
+	// parameter order: the sender's rport / received may stand before or after branch
+	switch s.Val(v, "parorder") {
+	case "branch-first":
+		pars = append([]string{"branch=z9hG4bKc07"}, append(pars, "x=keep")...)
+	case "branch-last":
+		pars = append(append(pars, "x=keep"), "branch=z9hG4bKc07")
+	case "reversed":
+		for i, j := 0, len(pars)-1; i < j; i, j = i+1, j-1 {
+			pars[i], pars[j] = pars[j], pars[i]
+		}
+		pars = append(append(pars, "branch=z9hG4bKc07"), "x=keep")
+	}
+	top := "SIP/2.0/" + transport + " " + viaHost + ":" + viaPort + ";" + strings.Join(pars, ";")
 	second := "SIP/2.0/UDP 10.98.0.2:5098;branch=z9hG4bKlower;rport;received=10.5.5.5"
 	var vias []string
 	viaName := "Via"
@@ -122,6 +134,13 @@ func c07Eval(v []int) (string, string, bool) {
 		conn = c
 		truePort = srcPort + 1000
 		w.S.Run()
+		if s.Val(v, "burst") == "other-connection-accepted-meanwhile" {
+			// another client connects to the same listener before the first one sends
+			if _, err := w.S.TCPDial("127.0.0.8:0", "127.0.0.1:5062"); err != nil {
+				panic(err)
+			}
+			w.S.Run()
+		}
 		w.Observe()
 		w.SendTCP(conn, m.Render())
 	case "tcp-dialled-backend":
@@ -280,20 +299,27 @@ func init() {
 		{Name: "layout", Vals: []string{"single", "two-entries", "two-lines", "compact"}, Quick: 2},
 		{Name: "path", Vals: []string{"backend", "route", "static"}},
 		{Name: "start", Vals: []string{"main", "startProxy"}, Quick: 1},
-		{Name: "burst", Vals: []string{"alone", "followed-by-other-source"}},
+		{Name: "burst", Vals: []string{"alone", "followed-by-other-source", "other-connection-accepted-meanwhile"}},
+		{Name: "parorder", Vals: []string{"branch-first", "branch-last", "reversed"}},
 	}, Eval: c07Eval, Sample: 300}
 	c07Spec.Valid = func(v []int) bool {
 		s := c07Spec
 		if s.Val(v, "arrival") == "tcp-dialled-backend" && (s.Val(v, "path") == "backend" || v[s.idx("source")] != 0) {
 			return false
 		}
-		if v[s.idx("burst")] != 0 && s.Val(v, "arrival") != "udp" {
+		if s.Val(v, "burst") == "followed-by-other-source" && s.Val(v, "arrival") != "udp" {
+			return false
+		}
+		if s.Val(v, "burst") == "other-connection-accepted-meanwhile" && s.Val(v, "arrival") != "tcp-accepted" {
+			return false
+		}
+		if v[s.idx("parorder")] != 0 && v[s.idx("rport")] == 0 && v[s.idx("received")] == 0 {
 			return false
 		}
 		return true
 	}
 	addCheck(&Check{ID: "C07", Level: "exploration",
-		Rule:   "complete product through the REAL main() with a YAML file (thorough: also through startProxy): no-received {absent,false,true} x arrival {UDP, accepted TCP connection, TCP connection the proxy dialled to a backend} x true source {plain, other address and high port, equal to the Via sent-by} x rport {absent, valueless, spoofed} x received {absent, spoofed} x Via layout x relaying path x {alone, immediately followed by a datagram from another source}; after the request, the next hop answers and the response is followed to the true source; non-trivial = request relayed",
+		Rule:   "complete product through the REAL main() with a YAML file (thorough: also through startProxy): no-received {absent,false,true} x arrival {UDP, accepted TCP connection, TCP connection the proxy dialled to a backend} x true source {plain, other address and high port, equal to the Via sent-by} x rport {absent, valueless, spoofed} x received {absent, spoofed} x Via layout x relaying path x {alone, immediately followed by a datagram from another source, another TCP connection accepted before the request is sent} x order of the sender's Via parameters (rport / received before or after branch); after the request, the next hop answers and the response is followed to the true source; non-trivial = request relayed",
 		Assume: []string{"position of a newly added Via parameter is not prescribed (parameters of the sender's entry compared as a multiset)"},
 		Run:    func(c *Ctx) { c07Spec.Run(c); cleanupYamlFiles() },
 		Replay: func(c *Ctx, raw json.RawMessage) string { defer cleanupYamlFiles(); return c07Spec.Replay(raw) },
